@@ -60,6 +60,14 @@ BUILT = {
             'library; lens classes covered by C04 findings (asphere r^2 term, negative power with imageFNO) are not '
             're-litigated here.',
             'DESIGN.md §4 C03'),
+    'C20': ('round-trip monitor: an independent writer emits well-formed .zmx texts from random prescriptions; the lens returned by load_zemax_file is compared field by field with what was written, and its paraxial values with the ABCD oracle on the written numbers',
+            'Exploration: 660 (quick) / 16k (thorough) generated files (1-30 surfaces, STANDARD/EVENASPH, ENPD/FNUM/OBNA, '
+            'angle/height fields unsorted and duplicated, 1-12 wavelengths, UTF-8 and UTF-16, LF/CRLF, three number '
+            'spellings, 59 catalogue glasses and guaranteed-unknown names, MODE NSC rejection); held = every loaded '
+            'field equals the written one.',
+            'Trusts vkit/oracles/zmxwriter.py (mirrors the syntax of the repository fixtures and real Zemax files) and '
+            'the ABCD oracle; media of the paraxial clause are evaluated through the loaded material objects.',
+            'DESIGN.md §4 C20'),
 }
 
 NOT_YET = {}
